@@ -1317,7 +1317,16 @@ class Parser:
         if data.get("message_defs") is not None:
             for name, mdf in data["message_defs"].items():
                 self.handle_message_def(name, mdf)
-            self.yaml_dict["message_defs"].update(data["message_defs"])
+
+            # Every file can carry its own _RESERVED_ block. Keep one block
+            # with the reserved ids of all files instead of only the last one.
+            message_defs = dict(data["message_defs"])
+            prev = self.yaml_dict["message_defs"].get("_RESERVED_")
+            if prev is not None and "_RESERVED_" in message_defs:
+                message_defs["_RESERVED_"] = dict(
+                    id=[*prev["id"], *message_defs["_RESERVED_"]["id"]]
+                )
+            self.yaml_dict["message_defs"].update(message_defs)
 
     def check_key_value_separation(self, text: str):
         for n, line in enumerate(text.splitlines(), start=1):
